@@ -182,6 +182,7 @@ class Exec:
         self.call_batches = []  # call index -> batch
         self.ended = None
         self.packing_not_greedy = 0
+        self.stray_touched = 0
 
     def setup(self):
         fs, sc = self.fs, self.sc
@@ -275,13 +276,16 @@ class Exec:
         blk, other = BF.read_dir(obs)
         ok = True
         for name in other:
-            if name not in sc["strays"]:
+            if name not in sc["strays"] and name.endswith(".dat"):
+                # a .dat file that is not blkNNNNN.dat: a record went somewhere a reader will not look
+                # (other new files - an index, a lock file - are none of this property's business)
                 self.viols.append(Violation("unexpected-file", f"batch={b} name={name}", f"{what}; files={sorted(obs)}"))
                 ok = False
         for name in sorted(sc["strays"]):
             if obs.get(name) != bytes.fromhex(sc["strays"][name]):
-                self.viols.append(Violation("stray-modified", f"batch={b} name={name}", what))
-                ok = False
+                # unrelated files are not covered by the property (an implementation may own a
+                # lock or index file of that name): a statistic, not a verdict
+                self.stray_touched += 1
         nums = [n for n, _, _ in blk]
         if nums != list(range(len(nums))):
             self.viols.append(Violation("numbering", f"batch={b}", f"{what}; file numbers {nums}"))
@@ -430,6 +434,8 @@ def execute(scenario, tape=None, keep_events=False):
             res.probes.hit("history-ended-" + ex.ended)
         if ex.packing_not_greedy:
             res.probes.hit("stat-new-file-although-record-fitted", ex.packing_not_greedy)
+        if ex.stray_touched:
+            res.probes.hit("stat-unrelated-file-touched", ex.stray_touched)
 
     only = sc.get("only_fault")
     p2p_module()
